@@ -129,7 +129,16 @@ def _variant(case):
 
 def check_eq(case, ctx):
     d = case["defn"]
-    a = build.make(d)
+    handed = {}
+    a = build.make(d, mode=["w", "pw", "wp"][case["idx"] % 3] if d["rational"] else "w", inputs=handed)
+    if case["coord"] % 2:
+        # the caller goes on using (overwrites) the lists it handed to the setters: the shape keeps its definition.
+        # (Knot vector lists of shapes built with normalize_kv=False are stored as they are - observed, not asserted.)
+        twin = copy.deepcopy(a)
+        build.scribble(handed, knots=bool(d.get("normalize", True)))
+        ctx.label("input-lists-overwritten-after-construction")
+        ctx.check((a == twin) is True and build.snapshot(a) == build.snapshot(twin), "definition-follows-callers-lists",
+                  "after the caller overwrote the lists it had passed to the setters the shape no longer equals the deep copy taken before")
     if case["read"]:
         _ = a.evalpts if d["kind"] == "curve" else None
         if a.rational:
